@@ -375,7 +375,8 @@ def run(ctx):
         ctx.notes.append("X02_PART=replay: model checking and negative configurations were skipped in this run")
     coverage = {"evaluations": res.get("evaluations", 0), "distinct_nontrivial": res.get("distinct_nontrivial", 0), "rule": RULE,
                 "samples": res.get("samples", [])[:3], "traces_validated_against_impl": res.get("evaluations", 0),
-                "exhaustive": summary["exhaustive"], "negatives": summary["negatives"], "behaviours_per_generator": per_gen,
+                "exhaustive": not only_replay, "exhaustive_runs": summary["exhaustive"], "negatives": summary["negatives"],
+                "behaviours_per_generator": per_gen,
                 "confluence_schedules": n_conf, "deviation_scenarios_bound": [s[0] for s in SCENARIOS],
                 "replay_stats": {k: v for k, v in stats.items() if not k.startswith("violations")},
                 "udp_scenarios": {"checks": udp.get("evaluations", 0), "stats": ustats, "notes": udp.get("notes", [])},
